@@ -308,9 +308,4 @@ def replay(body):
     if sc.get("kind") == "connect_each":
         print("replay of connect_each scenarios: run check.py C09 quick")
         return 2
-    r = simnet.run_impl(sc)
-    tr = simnet.canon_trace(r.trace)
-    res = oracle(sc, tr, dict(sock_closed=r.sock.closed if r.sock else None, escaped=r.escaped))
-    print("events:", fam.event_codes(tr), "escaped:", r.escaped)
-    print("REPLAY:", ("VIOLATION reproduced: %s" % res[0]) if res else "property holds on this input")
-    return 1 if res else 0
+    return fam.replay_generic(body, {"C09:fault-at-every-operation": oracle}, show=60)
